@@ -158,13 +158,15 @@ where
             res is Err ==> is_prefix(final(self).owed().0, old(self).owed().0), // id: no_fabrication_after_err [C02]
             old(self).ff() && old(self).owed().1 ==> res is Ok, // id: wellformed_never_errors [C01]
             old(self).pending().len() > 0 ==> wire(&final(self).inner) == wire(&old(self).inner) && res is Ok, // id: buffered_data_needs_no_wire [C19]
+            old(self).pending().len() == 0 && old(self).remaining == 0 && old(self).reached_eof // id: end_of_body_is_sticky_and_needs_no_wire [C19]
+                ==> wire(&final(self).inner) == wire(&old(self).inner) && (res matches Ok(s) && s@.len() == 0),
 //@@ end
 
 //@@ fn src/parsing/chunked_reader.rs BufRead~for~ChunkedReader consume props=C01,C02,C05
 //@@ contract
         requires old(self).inv(), amt <= old(self).pending().len(), // id: bufread_protocol_pre [C05]
         ensures final(self).inv(), final(self).owed().0 == old(self).owed().0.skip(amt as int), final(self).owed().1 == old(self).owed().1, // id: consume_skips_exactly_amt [C01,C02]
-            final(self).ff() == old(self).ff(),
+            final(self).ff() == old(self).ff(), wire(&final(self).inner) == wire(&old(self).inner), // id: consume_never_touches_the_wire [C19]
 //@@ end
 
 //@@ fn src/parsing/chunked_reader.rs Read~for~ChunkedReader read props=C01,C02,C05,C19
@@ -181,6 +183,8 @@ where
                 && (n == 0 ==> old(buf)@.len() == 0 || old(self).owed() == (Seq::<u8>::empty(), true)),
             res is Err ==> is_prefix(final(self).owed().0, old(self).owed().0), // id: no_fabrication_after_err [C02]
             old(self).ff() && old(self).owed().1 ==> res is Ok, // id: wellformed_never_errors [C01]
+            old(self).pending().len() == 0 && old(self).remaining == 0 && old(self).reached_eof // id: read_after_the_end_returns_zero_without_the_wire [C19]
+                ==> wire(&final(self).inner) == wire(&old(self).inner) && res matches Ok(0),
 //@@ end
 }
 
